@@ -218,15 +218,15 @@ func (g *Gen) loadTypeH(st *State, loc string, t types.Type, hint string) string
 			k = g.int8Kind()
 		}
 		cell := "(select " + g.heap(st, k) + " " + loc + ")"
-		if hint == "cell" {
+		if hint != "elm" {
+			// Pointers to byte-sized values held in parameters or loaded from memory are
+			// modelled as cells: element addresses of byte arrays are passed to callees by
+			// copy-in/copy-out at the call site (see applyCall).
 			return cell
 		}
 		g.u.kindSort["bytes"] = "(Seq Int)"
 		el := fromRaw("(seq.nth (select "+g.heap(st, "bytes")+" (mkloc (l_obj "+loc+") (p_ebase (l_path "+loc+")))) (p_i (l_path "+loc+")))", t)
-		if hint == "elm" {
-			return el
-		}
-		return "(ite ((_ is pelm) (l_path " + loc + ")) " + el + " " + cell + ")"
+		return el
 	}
 	return "(select " + g.heap(st, g.u.kindOf(t)) + " " + loc + ")"
 }
@@ -266,21 +266,13 @@ func (g *Gen) storeType(st *State, loc string, t types.Type, val string, hint st
 		}
 		unsup("store of large non-byte array value %s", t)
 	}
-	if isByteLike(t) && hint != "cell" {
+	if isByteLike(t) && hint == "elm" {
 		g.u.kindSort["bytes"] = "(Seq Int)"
 		hb := g.heap(st, "bytes")
 		arr := "(mkloc (l_obj " + loc + ") (p_ebase (l_path " + loc + ")))"
 		idx := "(p_i (l_path " + loc + "))"
 		upd := "(store " + hb + " " + arr + " (splice (select " + hb + " " + arr + ") " + idx + " (seq.unit " + toRaw(val, t) + ")))"
-		if hint == "elm" {
-			g.setHeap(st, "bytes", upd)
-			return
-		}
-		k := g.scalarKind(t)
-		isE := "((_ is pelm) (l_path " + loc + "))"
-		g.setHeap(st, "bytes", "(ite "+isE+" "+upd+" "+hb+")")
-		hk := g.heap(st, k)
-		g.setHeap(st, k, "(ite "+isE+" "+hk+" (store "+hk+" "+loc+" "+val+"))")
+		g.setHeap(st, "bytes", upd)
 		return
 	}
 	k := g.scalarKind(t)
@@ -359,10 +351,6 @@ func (g *Gen) typeFacts(st *State, x string, t types.Type) string {
 			return "(< (l_obj " + x + ") " + st.A + ")"
 		}
 	case *types.Pointer:
-		if isByteLike(tt.Elem()) {
-			g.u.kindSort["bytes"] = "(Seq Int)"
-			return "(and (< (l_obj " + x + ") " + st.A + ") (=> ((_ is pelm) (l_path " + x + ")) (and (<= 0 (p_i (l_path " + x + "))) (< (p_i (l_path " + x + ")) (seq.len (select " + g.heap(st, "bytes") + " (mkloc (l_obj " + x + ") (p_ebase (l_path " + x + ")))))))))"
-		}
 		return "(< (l_obj " + x + ") " + st.A + ")"
 	case *types.Map, *types.Chan:
 		return "(< (l_obj " + x + ") " + st.A + ")"
